@@ -642,7 +642,7 @@ impl Property for C13 {
                     budget = budget.saturating_sub(loops * per_loop);
                     Block::Delay(loops as u16)
                 }
-                4 => Block::Arith(rng.u8()),
+                4 => if rng.chance(1, 2) { Block::Arith(rng.u8()) } else { Block::Filler(rng.u32()) },
                 5 => Block::Call,
                 6 => Block::Tick,
                 7 => Block::Store { addr: 0xfee000 + rng.below(11) as u32, val: rng.u8(), short: false }, // port DDR
